@@ -763,8 +763,8 @@ class Probability(Expression):
         return Probability(distribution)
 
     def _get_key(self):  # type:ignore
-        # TODO incorporate more information from children and parents
-        return 0, self.children[0].name
+        # the printed form breaks ties between probabilities with the same first child
+        return 0, self.children[0].name, self.to_y0()
 
     def to_text(self) -> str:
         """Output this probability in the internal string format."""
@@ -1700,7 +1700,7 @@ class PopulationProbability(Probability):
         return PopulationProbability(population=self.population, distribution=distribution)
 
     def _get_key(self):  # type:ignore
-        return -1, self.population, self.children[0].name
+        return -1, self.population, self.children[0].name, self.to_y0()
 
     def to_y0(self) -> str:
         """Output this probability instance as y0 internal DSL code."""
